@@ -92,7 +92,10 @@ type PodDump struct {
 	TSC      []TSC       `json:"topologySpread"`
 	Tols     []Tol       `json:"tolerations"`
 	Ports    []HostPort  `json:"hostPorts"`
-	Requests RL          `json:"requests"` // k8s.io/component-helpers PodRequests + pods:1
+	Requests RL          `json:"requests"`           // k8s.io/component-helpers PodRequests + pods:1
+	Vols     [][2]string `json:"volumes"`            // (CSI driver, claim id), from the generator's knowledge (World.DumpPod)
+	VolTerms [][]Term    `json:"volumeTopology"`     // per volume the OR-ed topology terms (hostname dropped for local volumes)
+	VAlts    []Reqs      `json:"volumeAlternatives"` // PodData.VolumeRequirements as the code computed them (unit harnesses)
 }
 
 type OfferDump struct {
@@ -123,15 +126,16 @@ type ClaimDump struct {
 	Requests RL        `json:"requests"`
 }
 type ExistingDump struct {
-	Name      string      `json:"name"`
-	Kind      string      `json:"kind"`
-	Labels    [][2]string `json:"labels"`
-	Taints    []Taint     `json:"taints"`
-	Alloc     RL          `json:"allocatable"`
-	Remaining RL          `json:"remaining"`
-	Bound     []PodDump   `json:"bound"`
-	Placed    []PodDump   `json:"placed"`
-	Daemons   []PodDump   `json:"daemonsWithoutPodHere"`
+	Name      string           `json:"name"`
+	Kind      string           `json:"kind"`
+	Labels    [][2]string      `json:"labels"`
+	Taints    []Taint          `json:"taints"`
+	Alloc     RL               `json:"allocatable"`
+	Remaining RL               `json:"remaining"`
+	VLimits   map[string]int64 `json:"csiAttachLimits"`
+	Bound     []PodDump        `json:"bound"`
+	Placed    []PodDump        `json:"placed"`
+	Daemons   []PodDump        `json:"daemonsWithoutPodHere"`
 }
 type Dump struct {
 	WellKnown []string          `json:"wellKnownLabels"`
@@ -206,7 +210,7 @@ func K8sRequests(p *corev1.Pod) RL {
 // DumpPod projects a pod on its scheduling-relevant fields.
 func DumpPod(p *corev1.Pod) PodDump {
 	d := PodDump{Key: p.Namespace + "/" + p.Name, UID: string(p.UID), Sel: sortedPairs(p.Spec.NodeSelector),
-		Req: []Term{}, Pref: []WTerm{}, PAff: []WID{}, PAnti: []WID{}, TSC: []TSC{}, Tols: []Tol{}, Ports: []HostPort{}, Requests: K8sRequests(p)}
+		Req: []Term{}, Pref: []WTerm{}, PAff: []WID{}, PAnti: []WID{}, TSC: []TSC{}, Tols: []Tol{}, Ports: []HostPort{}, Requests: K8sRequests(p), Vols: [][2]string{}, VolTerms: [][]Term{}, VAlts: []Reqs{}}
 	if a := p.Spec.Affinity; a != nil {
 		if na := a.NodeAffinity; na != nil {
 			if na.RequiredDuringSchedulingIgnoredDuringExecution != nil {
